@@ -29,6 +29,12 @@ func TestPullProjectionsSideBySide(t *testing.T) {
 			if i > 0 || rapid.Bool().Draw(t, "firstMasked") {
 				s.ReadMask, _ = lib.DrawMask(t, fmt.Sprintf("mask%d", i), md, alphabet...)
 			}
+			if !isValue && rapid.IntRange(0, 3).Draw(t, "filtered") == 0 {
+				// a filtered view: the collection adjusts the change for this subscriber before its mask is applied
+				s.IncludeName = rapid.SampledFrom([]string{"id<b", "counter-odd", "has-derived"}).Draw(t, "include")
+				s.Include = rlib.IncludeFn(s.IncludeName)
+				lib.Ev.Class("pull:a filtered view next to other subscribers")
+			}
 			masks[lib.MaskString(s.ReadMask)] = true
 			subs = append(subs, s)
 		}
